@@ -291,3 +291,6 @@ for _p in ("C01", "C02", "C04", "C05", "C11", "C12", "C13", "C15"):
 
 # the trigger of selectNodes and the stale-read cases live in eds_reconcile
 PROPS["C15"]["streams"] = PROPS["C15"]["streams"] + [("eds_reconcile", 1500, 30000)]
+
+# C17's "reflected in the error the sync reports / in the conditions" is judged on whole syncs with faults
+PROPS["C17"]["streams"] = PROPS["C17"]["streams"] + [("ers_reconcile", 1500, 30000)]
